@@ -80,7 +80,7 @@ def verify(contract, scratch, tucache, bounded=0, bcase=None):
     """enforce the contract on the function's own body; returns (Exec, info dict)"""
     t0 = time.time()
     tu = tucache.get(contract.tu, getattr(contract, 'tu_filter', 'vfps::'))
-    fn = tu.function(contract.name, contract.mangled, contract.nparams)
+    fn = tu.function(contract.name, contract.mangled, contract.nparams, getattr(contract, 'sig_contains', None))
     aux = [tucache.get(r, f) for r, f in getattr(contract, 'aux_tus', [])]
     allobls = []
     info = {'unit': contract.name, 'file': contract.tu, 'sha': tu.sha, 'cases': len(contract.cases)}
